@@ -17,7 +17,8 @@ warnings.filterwarnings("ignore")
 
 THEOREMS = ["Yaw.C11.sparse_roundtrip", "Yaw.C11.sparse_zero", "Yaw.C11.members_roundtrip",
             "Yaw.C11.config_dict_roundtrip", "Yaw.C11.edges_regenerate", "Yaw.C11.glue_pinned",
-            "Yaw.C11.fromSparse_mem", "Yaw.C11.fromSparse_not_mem"]
+            "Yaw.C11.fromSparse_mem", "Yaw.C11.fromSparse_not_mem",
+            "Yaw.C11.write_sites_truncate", "Yaw.C11.result_writers_present"]
 RULE = ("CorrFunc through HDF5 for all 7 member subsets x auto/cross x counts incl. negative, sparse and all-zero "
         "arrays (== and identical sample()); the stored patch_pairs / binned_counts datasets are compared with the Lean "
         "sparse model; Configuration through YAML for every method / closed side / unit / scalar and list scales / "
